@@ -451,7 +451,17 @@ class GLRParser(Parser):
             if shifted_head:
                 # If this token has already been shifted connect shifted head to
                 # this head.
-                parent = next(iter(shifted_head.parents.values())).clone_with_root(head)
+                # Heads at different positions may reach the same shifted head
+                # by tokens of different lengths (lexical ambiguity), so the
+                # link must carry this head's own token and position.
+                parent = Parent(
+                    shifted_head,
+                    head,
+                    head.position,
+                    head.position + len(head.token_ahead),
+                    token=head.token_ahead,
+                    layout_content=head.layout_content_ahead,
+                )
                 if self.dynamic_filter and not self._call_dynamic_filter(
                     parent, head.state, to_state, SHIFT
                 ):
@@ -756,6 +766,7 @@ class Parent:
         "_ambiguities",
         "production",
         "token",
+        "_layout_content",
     ]
 
     def __init__(
@@ -767,9 +778,11 @@ class Parent:
         possibilities=None,
         production=None,
         token=None,
+        layout_content=None,
     ):
         self.root = root
         self.head = head
+        self._layout_content = layout_content
         self.start_position = start_position
         self.end_position = end_position if end_position is not None else start_position
 
@@ -873,6 +886,8 @@ class Parent:
 
     @property
     def layout_content(self):
+        if self._layout_content is not None:
+            return self._layout_content
         return self.head.layout_content
 
     @property
